@@ -29,6 +29,12 @@ class _OldRewriter(ast.NodeTransformer):
             self.depth -= 1
             return inner
         self.generic_visit(node)
+        if isinstance(node.func, ast.Name) and node.func.id == "implies" and len(node.args) == 2:
+            # lazy, like the logical reading: the consequent is only evaluated when the antecedent holds
+            return ast.copy_location(
+                ast.BoolOp(op=ast.Or(), values=[ast.UnaryOp(op=ast.Not(), operand=node.args[0]), node.args[1]]), node)
+        if isinstance(node.func, ast.Name) and node.func.id == "ite" and len(node.args) == 3:
+            return ast.copy_location(ast.IfExp(test=node.args[0], body=node.args[1], orelse=node.args[2]), node)
         return node
 
     def visit_Name(self, node):
@@ -82,6 +88,8 @@ class DomName:
 def base_namespace(engine, universe):
     import infinity
 
+    for name, (module, attr) in getattr(engine, "native_imports", {}).items():
+        engine.native_ns[name] = getattr(import_real(module, engine.src_root), attr)
     ns = dict(engine.native_ns)
     ns.update(
         implies=lambda a, b: (not a) or bool(b),
@@ -90,6 +98,9 @@ def base_namespace(engine, universe):
         inf=infinity.inf,
         is_infinite=infinity.is_infinite,
         cover=lambda *a: True,
+        the=lambda x: x,
+        is_fin=lambda x: not infinity.is_infinite(x),
+        fin=lambda x: x,
     )
     ns["forall"] = lambda f, *d, **kw: universe.forall(f, *[x.n if isinstance(x, DomName) else x for x in d])
     ns["exists"] = lambda f, *d, **kw: universe.exists(f, *[x.n if isinstance(x, DomName) else x for x in d])
@@ -146,7 +157,7 @@ def check_call(engine, contract, fn, args, universe=None, ns_extra=None, allow_e
         if r.smt_only:
             continue
         try:
-            if not eval(compile_clause(r.text), ns, dict(env)):
+            if not eval(compile_clause(r.text), {**ns, **env}):
                 return NativeResult("skip", clause=r.text)
         except Exception as e:  # ill-formed input for this precondition
             return NativeResult("skip", detail=f"{type(e).__name__}: {e}", clause=r.text)
@@ -161,7 +172,7 @@ def check_call(engine, contract, fn, args, universe=None, ns_extra=None, allow_e
     except Exception as e:
         ok = False
         for exc_name, cond in contract.raises:
-            if type(e).__name__ == exc_name and eval(compile_clause(cond), ns, dict(old)):
+            if type(e).__name__ == exc_name and eval(compile_clause(cond), {**ns, **old}):
                 ok = True
         if ok:
             return NativeResult("ok", detail=f"raised {type(e).__name__} as allowed")
@@ -176,11 +187,11 @@ def check_call(engine, contract, fn, args, universe=None, ns_extra=None, allow_e
         if e.smt_only:
             continue
         try:
-            ok = eval(compile_clause(e.text), ns, post_env)
+            ok = eval(compile_clause(e.text), {**ns, **post_env})
         except RecursionError:
             raise
         except Exception as ex:
-            return NativeResult("violation", detail=f"postcondition raised {type(ex).__name__}: {ex}", clause=e.text)
+            raise RuntimeError(f"contract clause could not be evaluated natively: {e.text}: {type(ex).__name__}: {ex}") from ex
         if not ok:
             return NativeResult("violation", detail=f"result={result!r}", clause=e.text)
     return NativeResult("ok")
